@@ -18,7 +18,7 @@ def run(ctx: Context) -> None:
     ctx.rule('R20.2', "geometry_argument tries bounds, then JSON, then an existing .json/.geojson file, and every failure raises ArgumentTypeError (no silent partial parse)", floor=5)
     ctx.rule('R20.3', "every error handler of nice_console_errors ends the process with a non-zero status; the generic handler exists; commands run inside it", floor=6)
     ctx.rule('R20.4', "tables agree: format writers = --format choices minus 'auto' = range of guess_format, each naming the library writer of that format; every public module of cli.commands exports a Command", floor=7)
-    ctx.rule('R20.5', "handlers are thin: the library entry point receives the parsed options unmodified and its result is written by the library's own writer; NonIntersectingPoints becomes a CommandException", floor=9)
+    ctx.rule('R20.5', "handlers are thin: the library entry point receives the parsed options unmodified and its result is written by the library's own writer; NonIntersectingPoints becomes a CommandException; nothing can fail after the output was written", floor=10)
     ctx.rule('R20.6', "a point outside the model is refused under 'error' wherever it is in the table: the refusal is decided by the number of misses, and the command hands the policy through (facts shared with C05 R05.2 / R05.3)", floor=10)
     from . import c05 as _c05
     from .common import share_obligations as _share
@@ -284,6 +284,27 @@ def run(ctx: Context) -> None:
         wr = [c for c in calls_in(ep) if callee(ctx, ep, c) == 'emsarray.utils.to_netcdf_with_fixes']
         ok = (len(wr) == 1 and ed and flow.resolve(wr[0].args[0]) is ed[0] and norm_text(wr[0].args[1]) == 'options.output_path')
         ctx.check('R20.5', ok, "extract-points: the extracted dataset itself is written to the output path", ep, wr[0] if wr else ep.node)
+        # the writer fixes the units of `time_variable` *after* writing: naming a variable that is not in
+        # the written dataset fails with the file already on disk (a partial success)
+        tv = kwarg(wr[0], 'time_variable') if wr else None
+        ok_tv = tv is None or is_none(tv)
+        detail = 'no time variable passed'
+        if tv is not None and not is_none(tv) and wr:
+            written = wr[0].args[0]
+            # every definition of the name that is not None must be followed by a membership test against the written dataset
+            guards_ = [st for st in walk_no_nested(ep.node) if isinstance(st, ast.If) and isinstance(st.test, ast.Compare) and len(st.test.ops) == 1
+                       and isinstance(st.test.ops[0], ast.NotIn) and norm_text(st.test.left) == norm_text(tv)
+                       and isinstance(st.test.comparators[0], (ast.Attribute, ast.Name))
+                       and flow.canon(st.test.comparators[0].value if isinstance(st.test.comparators[0], ast.Attribute) else st.test.comparators[0]) == flow.canon(written)
+                       and len(st.body) == 1 and isinstance(st.body[0], ast.Assign) and norm_text(st.body[0].targets[0]) == norm_text(tv) and is_none(st.body[0].value)]
+            from_written = flow.reaches(tv, lambda n: isinstance(n, ast.Attribute) and n.attr == 'time_coordinate' and isinstance(n.value, ast.Attribute)
+                                        and n.value.attr == 'ems' and flow.canon(n.value.value) == flow.canon(written))
+            dominated = bool(guards_) and ctx.cfg(ep).dominates(guards_[0], stmt_of(ep, wr[0])) and stmt_of(ep, wr[0]).lineno > guards_[0].lineno
+            ok_tv = from_written or dominated
+            detail = 'taken from the written dataset itself' if from_written else ('guarded by a membership test on the written dataset' if dominated else
+                                                                               f"{norm_text(tv)} comes from the input dataset and is not checked against the extracted one")
+        ctx.check('R20.5', bool(ok_tv), "extract-points: the time variable whose units are fixed after writing is one the written dataset contains (point extraction drops variables without a selected dimension)",
+                  ep, wr[0] if wr else ep.node, construct=f"time_variable: {detail}")
         for hq in (f"{CMDS}.clip.Command.handle", f"{CMDS}.extract_points.Command.handle", f"{CMDS}.export_geometry.Command.handle"):
             hf = ctx.func(hq)
             opens = [c for c in calls_in(hf) if (callee(ctx, hf, c) or '').endswith('open_dataset')]
@@ -328,6 +349,7 @@ _EG = 'src/emsarray/cli/commands/export_geometry.py'
 _CL = 'src/emsarray/cli/commands/clip.py'
 _EP = 'src/emsarray/cli/commands/extract_points.py'
 VARIANTS = [
+    V('C20', 'time-variable-not-checked', 'src/emsarray/cli/commands/extract_points.py', "        if time_name not in point_data.variables:\n            time_name = None\n", "", 'R20.5'),
     V('C20', 'match-reintroduced', _CU, "    bounds_match = bounds_re.fullmatch(argument_string)", "    bounds_match = bounds_re.match(argument_string)", 'R20.1'),
     V('C20', 'bounds-argument-match', _CU, "    match = bounds_re.fullmatch(bounds_string)", "    match = bounds_re.match(bounds_string)", 'R20.1'),
     V('C20', 'search', _CU, "    match = bounds_re.fullmatch(bounds_string)", "    match = bounds_re.search(bounds_string)", 'R20.1'),
